@@ -16,7 +16,8 @@ the clock monotone).  `runCtx true` is the CURRENT code (esrally/client/context.
 * `outer_span`         — the full statement, for the current code: any tree, any number of tasks and clients, any
   admissible interleaving.
 * `exit_kind_irrelevant` — contexts left by an exception (failed / cancelled sub-requests) propagate like any other.
-* `sub_request_exact`  — every trace (stated for both code versions).
+* `sub_request_exact`  — every trace (stated for both code versions); `dependent_timings_complete` / `_exact` lift it
+  to the whole `dependent_timing` list of a composite (one record per executed sub-request, unkeyed).
 * `client_isolation`   — every trace (stated for both code versions).
 * historical (`…_pinned`, code before 65587fe): the full statement was **false** (`outer_span_false_pinned`,
   `outer_span_false_end_pinned`, `outer_span_false_empty_child_pinned`; the same traces are regression cases in
@@ -178,6 +179,49 @@ example : chk true
     [.client 0, .open_ 0 10, .spawn 0 1, .spawn 0 2, .open_ 1 12, .open_ 2 13, .wireStart 1 10, .wireStart 2 11,
      .wireEnd 2 15, .close 2 true, .close 0 false, .wireEnd 1 15, .close 1 true]
     (fun s => s.late && view s 10 == some (some 10, some 15, some 10, some 15)) = true := by decide
+
+/-! ### the `dependent_timing` list of a composite: one record per executed sub-request -/
+
+/-- **dependent_timings_complete**: the list `Composite.run_stream` returns (model: `collect`, which mirrors its
+    `timings.append` / `timings += stream_timings` with the pending-streams buffer) contains every executed
+    sub-request of the specification — nested and concurrent streams included — exactly once, in specification
+    order.  Records are not keyed by anything: sub-requests that share a `name`, or have none, stay apart. -/
+theorem dependent_timings_complete (items : Items) : collect items = allOps items := by
+  unfold collect
+  rw [collectGo_eq]
+  rfl
+
+/-- as a multiset and as a count (what the property needs) -/
+theorem dependent_timings_one_per_sub_request (items : Items) :
+    (collect items).Perm (allOps items) ∧ (collect items).length = (allOps items).length := by
+  rw [dependent_timings_complete]
+  exact ⟨List.Perm.refl _, rfl⟩
+
+/-- what `RequestTiming` puts into the record of the sub-request that ran in context `c` -/
+def timingOf (s : St) (c : Nat) : Option (PyVal × PyVal) := (s.ctxs c).map (fun r => (r.getStart, r.getStop))
+
+/-- **dependent_timings_exact** = `sub_request_exact` lifted to the whole list: if `ctxOf id` is the (leaf) context
+    in which sub-request `id` ran, the list of records is, entry by entry, the first start / last end of exactly
+    that sub-request's own wire requests (any interleaving of the streams, any sharing of names). -/
+theorem dependent_timings_exact (fx : Bool) (evs : List CEv) (s : St) (items : Items) (ctxOf : Nat → Nat)
+    (hrun : runCtx fx evs = .ok s)
+    (hleaf : ∀ id ∈ allOps items, (s.ctxs (ctxOf id)).isSome ∧ isLeaf s (ctxOf id) = true) :
+    (collect items).map (fun id => (id, timingOf s (ctxOf id))) =
+    (allOps items).map (fun id => (id, some (minOpt (directTimes s.log true (ctxOf id)),
+                                            maxOpt (directTimes s.log false (ctxOf id))))) := by
+  rw [dependent_timings_complete]
+  apply List.map_congr_left
+  intro id hid
+  obtain ⟨hsome, hl⟩ := hleaf id hid
+  cases hc : s.ctxs (ctxOf id) with
+  | none => rw [hc] at hsome; cases hsome
+  | some r =>
+    obtain ⟨h1, h2⟩ := sub_request_exact_read fx evs s (ctxOf id) r hrun hc hl
+    simp [timingOf, hc, h1, h2]
+
+/-- streams three levels deep, streams before / between / after sub-requests -/
+example : collect (.stream (.op 0 (.stream (.op 1 .nil) (.op 2 .nil))) (.stream (.op 3 .nil) (.op 4 (.stream (.op 5 .nil) .nil))))
+    = [0, 1, 2, 3, 4, 5] := by decide
 
 /-! ### historical: the code before fix 65587fe (`runCtx false`)
 
